@@ -25,6 +25,7 @@ OUT = 3000
 FIND = {1: "C06/f64-partialord-nan", 2: "C06/f64-negative-zero"}
 LENS = [0, 1, 1023, 1024, 1025, 2049]
 MUTANTS = ["m_valid_or", "m_between_neg"]
+VM_MUTANTS = {"m_clobber": ("FreshDst", "Refines"), "m_chunk_off": ("Refines",), "m_len": ("Refines",), "m_valid_or": ("Refines",)}
 
 
 def derive_cfg(ctx, base, name, **subst):
@@ -39,8 +40,8 @@ def derive_cfg(ctx, base, name, **subst):
     return path
 
 
-def tlc(ctx, cfg, tag, workers, coverage=False):
-    return run_tlc("CompiledExpr", cfg, workers=workers, timeout=3300, heap="6g", tag="C06-" + tag, coverage=coverage)
+def tlc(ctx, cfg, tag, workers, coverage=False, module="CompiledExpr"):
+    return run_tlc(module, cfg, workers=workers, timeout=3300, heap="6g", tag="C06-" + tag, coverage=coverage)
 
 
 def spec_str(a):
@@ -288,10 +289,13 @@ def run(ctx):
                              f"as-built, table variant {v}, families {'+'.join(fams)}", 4))
     side = [("CompiledExpr_fixed_quick.cfg", "repaired evaluator (total_cmp): agrees everywhere, no escape", None),
             ("CompiledExpr_strict_bad.cfg", "as-built without the deviation escape: counterexample expected", "Agree")]
+    vmcfg = "CompiledVM_quick.cfg" if quick else "CompiledVM_thorough.cfg"
+    side.append((vmcfg, "the register machine (compiler + chunked eval_chunk, one action per instruction) refines the compiled row function on every batch length around the chunk boundary", None, "CompiledVM"))
     if not quick:
         side += [(derive_cfg(ctx, "CompiledExpr_fixed_quick.cfg", f"{m}.cfg", Impl=f'"{m}"', Strict="FALSE"), f"mutant {m}: rejected", "Agree") for m in MUTANTS]
+        side += [(derive_cfg(ctx, "CompiledVM_quick.cfg", f"vm-{m}.cfg", VM=f'"{m}"'), f"machine mutant {m}: rejected", inv, "CompiledVM") for m, inv in VM_MUTANTS.items()]
     pool = cf.ThreadPoolExecutor(max_workers=4 if quick else 3)
-    side_f = [pool.submit(lambda s=s: (s, tlc(ctx, s[0], os.path.basename(s[0])[:-4], 2))) for s in side]
+    side_f = [pool.submit(lambda s=s: (s, tlc(ctx, s[0], os.path.basename(s[0])[:-4], 2, coverage=(not quick and len(s) > 3 and s[2] is None), module=(s[3] if len(s) > 3 else "CompiledExpr")))) for s in side]
     emit_f = [pool.submit(lambda r=r: (r, tlc(ctx, r[0], os.path.basename(r[0])[:-4], r[2], coverage=not quick))) for r in emit]
     n_cases = 0
     sig_rows = collections.Counter()
@@ -317,12 +321,17 @@ def run(ctx):
         ctx.sample({"expr": render(c["e"]), "variant": c["variant"], "compiled": c["compiled"], "interp": spec_str(c["ri"])[:32], "compiled_rows": spec_str(c["rc"])[:32]}, cap=5)
         res.cases, res.out = [], ""
     for f in side_f:
-        (cfg, label, expect), res = f.result()
+        sdesc, res = f.result()
+        cfg, label, expect = sdesc[:3]
         ctx.tlc_stats(res, label)
         if res.error:
             raise vlib.ToolError(f"TLC error in {label}: {res.error[:300]}")
+        if len(sdesc) > 3 and expect is None and not quick:
+            for act in ("Exec", "Flush"):
+                if res.coverage.get(act, 0) == 0:
+                    raise vlib.ToolError(f"{label}: action {act} never taken")
         if expect:
-            if res.violated != expect:
+            if res.violated != expect and not (isinstance(expect, tuple) and res.violated in expect):
                 raise vlib.ToolError(f"{label}: TLC found no counterexample to {expect} (got {res.violated})")
             ctx.add("expected_counterexamples_found")
         else:
@@ -387,6 +396,11 @@ def selftest(ctx):
         res = tlc(ctx, derive_cfg(ctx, "CompiledExpr_fixed_quick.cfg", f"st-{m}.cfg", Impl=f'"{m}"', Strict="FALSE", Families='{"bool"}'), f"st-{m}", 3)
         ok = res.violated == "Agree"
         print(f"selftest: model mutant {m}: {'rejected by Agree' if ok else 'ACCEPTED'}")
+        missed += 0 if ok else 1
+    for m, inv in VM_MUTANTS.items():
+        res = tlc(ctx, derive_cfg(ctx, "CompiledVM_quick.cfg", f"st-vm-{m}.cfg", VM=f'"{m}"'), f"st-vm-{m}", 3, module="CompiledVM")
+        ok = res.violated in inv
+        print(f"selftest: machine mutant {m}: {'rejected by ' + str(res.violated) if ok else 'ACCEPTED'}")
         missed += 0 if ok else 1
     res = tlc(ctx, derive_cfg(ctx, "CompiledExpr_quick.cfg", "st-emit.cfg", Families='{"intleaf"}', Variants='{"nulls"}'), "st-emit", 3)
     tlc_must_pass(res, "selftest emit")
